@@ -4,6 +4,7 @@ use crate::engine::{Report, Tier};
 use serde_json::Value;
 
 pub mod c01;
+pub mod c02;
 pub mod c03;
 pub mod c04;
 pub mod c05;
@@ -13,7 +14,10 @@ pub mod c08;
 pub mod c09;
 pub mod c10;
 pub mod c11;
+pub mod c12;
+pub mod c13;
 pub mod c15;
+pub mod c16;
 pub mod c17;
 pub mod c20;
 pub mod flows;
@@ -28,6 +32,7 @@ pub type ReplayFn = fn(&Value) -> Result<Option<String>, String>;
 pub fn registry() -> Vec<(&'static str, RunFn, &'static str, ReplayFn)> {
     vec![
         ("C01", c01::run, c01::RULE, c01::replay),
+        ("C02", c02::run, c02::RULE, c02::replay),
         ("C03", c03::run, c03::RULE, c03::replay),
         ("C04", c04::run, c04::RULE, c04::replay),
         ("C05", c05::run, c05::RULE, c05::replay),
@@ -37,7 +42,11 @@ pub fn registry() -> Vec<(&'static str, RunFn, &'static str, ReplayFn)> {
         ("C09", c09::run, c09::RULE, c09::replay),
         ("C10", c10::run, c10::RULE, c10::replay),
         ("C11", c11::run, c11::RULE, c11::replay),
+        ("C12", c12::run, c12::RULE, c12::replay),
+        ("C13", c13::run_c13, c13::RULE_C13, c13::replay_c13),
+        ("C14", c13::run_c14, c13::RULE_C14, c13::replay_c14),
         ("C15", c15::run, c15::RULE, c15::replay),
+        ("C16", c16::run, c16::RULE, c16::replay),
         ("C17", c17::run, c17::RULE, c17::replay),
         ("C18", c18::run, c18::RULE, c18::replay),
         ("C19", c19::run, c19::RULE, c19::replay),
